@@ -41,7 +41,7 @@ def default_outcome(w):
     return json.dumps(out, sort_keys=True)
 
 def explore(scenario, monitor_factory, bound=None, max_states=200000, max_depth=400, wall=None,
-            outcome=default_outcome, stop_on_first=False, on_complete=None, prefix=None):
+            outcome=default_outcome, stop_on_first=False, on_complete=None, prefix=None, preamble=None, only=None):
     """
     bound=None: closed exploration (all interleavings).  bound=k: at most k deviations from the canonical schedule.
     monitor_factory() -> list of fresh monitors.  Returns Result.
@@ -65,6 +65,14 @@ def explore(scenario, monitor_factory, bound=None, max_states=200000, max_depth=
         path = []
         reported = 0
         try:
+            for lab in (preamble or ()):
+                lab = tuple(lab)
+                if lab[0] not in ("crash", "restart", "arm_crash"):
+                    en = w.enabled()
+                    w.enabled_cache = en
+                    if lab not in en:
+                        raise HarnessError("preamble diverged: %r not enabled in %r (%s)" % (lab, en, scenario.get("name")))
+                w.step(lab)
             # replay the prefix
             for k, c in enumerate(choices):
                 en = w.enabled()
@@ -76,7 +84,11 @@ def explore(scenario, monitor_factory, bound=None, max_states=200000, max_depth=
             if choices:
                 res.replays += 1
                 res.replayed_steps += len(choices)
-            nviol = sum(len(m.violations) for m in mons)
+            if only is not None:
+                mons_all = mons
+                mons = [m for m in mons if m.name in only]
+            else:
+                mons_all = mons
             fresh = len(choices)   # states before this index were already handled
             while True:
                 # violations raised by the last step
@@ -102,7 +114,7 @@ def explore(scenario, monitor_factory, bound=None, max_states=200000, max_depth=
                 en = w.enabled()
                 w.enabled_cache = en
                 if not en:
-                    for m in mons:
+                    for m in mons_all:
                         m.at_quiescence(w)
                     cur = [v for m in mons for v in m.violations]
                     for v in cur[reported:]:
@@ -168,7 +180,7 @@ def run_labels(scenario, monitor_factory, labels, quiesce=False):
         lab = tuple(lab)
         en = w.enabled()
         w.enabled_cache = en
-        if lab not in en and lab[0] not in ("crash", "restart"):
+        if lab not in en and lab[0] not in ("crash", "restart", "arm_crash"):
             raise HarnessError("replay diverged at step %d: %r not enabled (enabled: %r)" % (k, lab, en))
         w.step(lab)
     if quiesce:
